@@ -21,13 +21,14 @@ fn empty() -> crate::fse::fse_encoder::FSETable { crate::fse::fse_encoder::verif
 // header type/size/last flag consistent with the body, body never larger than the block, RLE iff all bytes equal,
 // raw fallback writes the committed bytes, and the encoder's belief about the decoder's Huffman table only changes
 // when a compressed block (which carries that table) is emitted.
-harness! { fn fastest_block_framing_and_table_state() {
+fn fastest_framing(had_table: bool) {
     let data: [u8; 4] = nd::any();
-    let had_table: bool = nd::any();
     let mut st = CompressState {
         matcher: StubMatcher { space: Vec::new() },
         last_huff_table: if had_table { Some(crate::huff0::huff0_encoder::verif_kani::marker_table(1)) } else { None },
-        fse_tables: FseTables { ll_default: empty(), ll_previous: None, ml_default: empty(), ml_previous: None, of_default: empty(), of_previous: None },
+        // never read by compress_fastest itself (only by the block encoder, which is S5 here); left uninitialised because
+        // building three 256-entry tables dominates the symbolic execution
+        fse_tables: unsafe { core::mem::MaybeUninit::<FseTables>::uninit().assume_init() },
     };
     let last: bool = nd::any();
     let mut out: Vec<u8> = Vec::with_capacity(64);
@@ -56,4 +57,6 @@ harness! { fn fastest_block_framing_and_table_state() {
         nd_cover!(belief == 2, "compressed block with a new table");
     }
     core::mem::forget(st);
-} }
+}
+harness! { fn fastest_block_framing_no_earlier_table() { fastest_framing(false); } }
+harness! { fn fastest_block_framing_earlier_table() { fastest_framing(true); } }
